@@ -472,6 +472,23 @@ def check_roundtrip(ctx, nss, cfgmod, n):
             cls = "angle-error>1e-15" if p0 in ANGLE else ("string-changed" if p0 and p0[-1] in ("title", "name") else "field-changed:" + ".".join(p0))
             ctx.violation("toml-roundtrip", cls, "configuration read back differs from the one written",
                           {"config": r, "diff": [(".".join(p), a, b) for p, a, b in diff[:3]]})
+        # --- reading is repeatable: what a caller does to the configuration it loaded (the front ends apply command-line
+        # overrides to it) must not show up when the same, unchanged file is read again
+        if i % 10 == 0 and not diff:
+            try:
+                back.title = "changed by the caller"
+                back.simulation.thrown_events = int(back.simulation.thrown_events) + 17
+                back.detector.radio.enable = not back.detector.radio.enable
+                back.simulation.spectrum = cfgmod.Simulation.MonoSpectrum(log_nu_energy=11.75)
+                again = cfgmod.config_from_toml(path)
+                ctx.count("reread_after_caller_mutation")
+                d2 = tree_diff(r, floatify(raw_of(again)), rtol_paths=ANGLE, rtol=ANGLE_TOL)
+                if d2 or again is back:
+                    ctx.violation("config_from_toml", "second-read-of-unchanged-file-differs",
+                                  "reading the same unchanged file a second time does not give the configuration that was written (the caller's changes to the first result leak in)",
+                                  {"config": r, "diff": [(".".join(p), a, b) for p, a, b in d2[:3]], "same_object_returned": again is back})
+            except Exception as e:  # noqa
+                ctx.violation("config_from_toml", "exception:" + type(e).__name__, f"second read: {str(e)[:120]}", {"config": r})
         # --- model round trip vs real round trip
         ms, mr = model_res(out[2 * i + 1])
         diff = tree_diff(mr, rb, rtol_paths=ANGLE, rtol=2 * ANGLE_TOL) if ms == "ok" else [("status", ms, mr)]
@@ -556,8 +573,28 @@ def check_cli(ctx, cfgmod):
                           {"args": args, "diff": [(".".join(p), a, b) for p, a, b in diff[:3]]})
 
 
+def warm_process(ctx, nss):
+    """The configuration rules hold in a process that has already run a simulation (a notebook or scan session runs, then
+    builds the next configuration): run one small simulation with both channels first, so that anything the stages leave
+    behind in process-global state (unit registries, caches, numpy error state) is in force while the rules are checked."""
+    import dask
+    from nuspacesim.compute import compute
+    cfg = nss.NssConfig()
+    cfg.simulation.thrown_events = 40
+    cfg.detector.radio.enable = True
+    cfg.detector.optical.enable = True
+    np.random.seed(5)
+    try:
+        with quiet_stdout(), dask.config.set(scheduler="synchronous"), np.errstate(all="ignore"):
+            t = compute(cfg)
+        ctx.count("warm_process_rows", len(t))
+    except Exception as e:  # noqa
+        ctx.notes.append(f"the warm-up simulation raised {type(e).__name__}: {str(e)[:100]}")
+
+
 def run(ctx: Ctx):
     nss, cfgmod = _imports()
+    warm_process(ctx, nss)
     check_defaults(ctx, cfgmod)
     check_units(ctx, cfgmod)
     check_band(ctx, cfgmod)
